@@ -658,3 +658,77 @@ func TestC18LPMKeysRandom(t *testing.T) {
 		}
 	})
 }
+
+type ipCase struct {
+	A, B [16]byte
+	V4   bool
+	Bits int
+}
+
+func checkNetIP(c ipCase) error {
+	var a, b netip.Addr
+	if c.V4 {
+		a, b = netip.AddrFrom4([4]byte(c.A[:4])), netip.AddrFrom4([4]byte(c.B[:4]))
+	} else {
+		a, b = netip.AddrFrom16(c.A), netip.AddrFrom16(c.B)
+		if a.Is4In6() || b.Is4In6() {
+			return nil // an IPv4-mapped IPv6 address and the IPv4 address share a key by design
+		}
+	}
+	ka, kb := index.NetIPAddr(a), index.NetIPAddr(b)
+	if len(ka) != 16 || len(kb) != 16 {
+		return fmt.Errorf("NetIPAddr key is not 16 bytes")
+	}
+	if (a == b) != bytes.Equal(ka, kb) {
+		return fmt.Errorf("NetIPAddr %v vs %v: key equality differs from value equality", a, b)
+	}
+	if k, err := index.NetIPAddrString(a.String()); err != nil || !bytes.Equal(k, ka) {
+		return fmt.Errorf("NetIPAddrString(%v) = %x, %v", a, k, err)
+	}
+	if !bytes.Equal(index.NetIP(a.AsSlice()), ka) {
+		return fmt.Errorf("NetIP(%v) differs from NetIPAddr", a)
+	}
+	max := 128
+	if c.V4 {
+		max = 32
+	}
+	bits := ((c.Bits % (max + 1)) + max + 1) % (max + 1)
+	pa, pb := netip.PrefixFrom(a, bits), netip.PrefixFrom(b, bits)
+	if (pa.Masked() == pb.Masked()) != bytes.Equal(index.NetIPPrefix(pa), index.NetIPPrefix(pb)) {
+		return fmt.Errorf("NetIPPrefix %v vs %v: key equality differs from equality of the masked prefixes", pa, pb)
+	}
+	if k, err := index.NetIPPrefixString(pa.String()); err != nil || !bytes.Equal(k, index.NetIPPrefix(pa)) {
+		return fmt.Errorf("NetIPPrefixString(%v) = %x, %v", pa, k, err)
+	}
+	return nil
+}
+
+func TestC18NetIP(t *testing.T) {
+	const test = "TestC18NetIP"
+	if vk.Replaying() {
+		var c ipCase
+		if vk.Replay("C18", test, &c) {
+			if err := checkNetIP(c); err != nil {
+				vk.Fail(t, "C18", test, c, "netip-encoder", "%v", err)
+			}
+		}
+		return
+	}
+	rec := vk.NewRecorder("C18", test, "pairs of IPv4 or IPv6 addresses (second a small edit of the first) and a prefix length: NetIPAddr/NetIP keys are 16 bytes and equal iff the addresses are equal (within one family; IPv4-mapped IPv6 excluded), NetIPPrefix keys equal iff the masked prefixes are equal, string constructors agree; non-trivial = the addresses differ; distinct by case")
+	defer rec.Flush()
+	rapid.Check(t, func(rt *rapid.T) {
+		var c ipCase
+		copy(c.A[:], rapid.SliceOfN(rapid.Byte(), 16, 16).Draw(rt, "a"))
+		c.B = c.A
+		if rapid.Bool().Draw(rt, "edit") {
+			i := rapid.IntRange(0, 15).Draw(rt, "i")
+			c.B[i] ^= 1 << uint(rapid.IntRange(0, 7).Draw(rt, "bit"))
+		}
+		c.V4 = rapid.Bool().Draw(rt, "v4")
+		c.Bits = rapid.IntRange(0, 128).Draw(rt, "bits")
+		rec.Case(c, c.A != c.B)
+		if err := checkNetIP(c); err != nil {
+			vk.Fail(rt, "C18", test, c, "netip-encoder", "%v", err)
+		}
+	})
+}
